@@ -91,6 +91,15 @@ type rinst struct {
 type world struct {
 	ws []*winst
 	rs []*rinst
+	// instances built without a store/retrieve backend of their own: they carry the library's default backend (a file
+	// system backend without data directory), which belongs to the instance like the rest of its configuration
+	defs []*defInst
+}
+
+type defInst struct {
+	kind    string // "reader" / "writer"
+	backend func() storage.StoreRetriever
+	path    string // the data directory configured on THIS instance's backend ("" = never configured)
 }
 
 var (
@@ -573,6 +582,37 @@ func steps(thorough bool) []step {
 		return ""
 	}})
 
+	// default backends: instances built without WithStoreRetriever, and their backend configured in place (the only way
+	// to give the default backend a data directory)
+	out = append(out, step{Ctor: true, Name: "reader.New() [default backend]", Do: func(w *world) string {
+		r := reader.New()
+		w.defs = append(w.defs, &defInst{kind: "reader", backend: func() storage.StoreRetriever { return r.Storage }})
+		return ""
+	}})
+	out = append(out, step{Ctor: true, Name: "writer.New() [default backend]", Do: func(w *world) string {
+		wr := writer.New()
+		w.defs = append(w.defs, &defInst{kind: "writer", backend: func() storage.StoreRetriever { return wr.Storage }})
+		return ""
+	}})
+	for _, which := range []string{"first", "last"} {
+		which := which
+		out = append(out, step{Name: which + "-default-backend-instance: data directory of its backend set in place", Do: func(w *world) string {
+			if len(w.defs) == 0 {
+				return ""
+			}
+			k := 0
+			if which == "last" {
+				k = len(w.defs) - 1
+			}
+			fsb, ok := w.defs[k].backend().(*storage.FileSystem)
+			if !ok {
+				return fmt.Sprintf("default backend of %s #%d is %T, not the file system backend", w.defs[k].kind, k, w.defs[k].backend())
+			}
+			w.defs[k].path = fmt.Sprintf("/var/lib/sbom/instance-%d", k)
+			fsb.Options.Path = w.defs[k].path
+			return ""
+		}})
+	}
 	// value corners: constructors called with unusual option values
 	cornerW := func(name string, mk func() []writer.WriterOption) {
 		out = append(out, step{Corner: true, Ctor: true, Name: "writer.New(" + name + ")", Do: func(w *world) string {
@@ -674,6 +714,15 @@ func firstN(s string, n int) string {
 
 // observe compares every live instance with its model.
 func observe(w *world) string {
+	for k, d := range w.defs {
+		fsb, ok := d.backend().(*storage.FileSystem)
+		if !ok || fsb == nil {
+			return fmt.Sprintf("%s #%d built without a backend of its own carries %T, not a file system backend", d.kind, k, d.backend())
+		}
+		if fsb.Options.Path != d.path {
+			return fmt.Sprintf("%s #%d (default backend): data directory %q, want %q - what was configured on this instance only", d.kind, k, fsb.Options.Path, d.path)
+		}
+	}
 	for k, i := range w.ws {
 		o := i.w.Options
 		if o == nil {
